@@ -12,6 +12,9 @@
 //	mono    <customs> <impl before> <impl after> <query before> <query after>   (one selection added at the top level)
 //	witness <customs> <impl before> <impl after> <query before> <query after>   (Lean: monotone_add_selection_witness)
 //	bad     <limit> <execCalls> <code|-> <httpExecCalls> <httpCode|-> <query>
+//
+// -mode genproj (genproj.go) writes the "generated server" projects whose REAL generated Complexity() switch is
+// executed by genrun.go.txt after the check generated them from /repo's current templates.
 package main
 
 import (
@@ -1085,8 +1088,15 @@ func mutateQuery(r *rng.R, q string) string {
 func main() {
 	tier := flag.String("tier", "quick", "")
 	seed := flag.Uint64("seed", 1, "")
+	mode := flag.String("mode", "run", "run | genproj (write the generated-server projects, see genproj.go)")
+	outDir := flag.String("out", "", "genproj: directory the projects are written to")
+	corpus := flag.String("corpus", "", "genproj: corpus/C14/genprojects.txt")
 	flag.Parse()
 	defer out.Flush()
+	if *mode == "genproj" {
+		runGenProj(*outDir, *corpus, *tier, *seed)
+		return
+	}
 	r := rng.New(*seed ^ 0xC14C14)
 	schemas := []*ast.Schema{mustSchema(sdlA), mustSchema(sdlB)}
 
